@@ -143,3 +143,24 @@ Definition upd_merge_share (n : nat) (w um rs : option nmask) : mfun := fun s ds
       else upd_merge_w n w um rs s dst src
   | _, _ => upd_merge_w n w um rs s dst src
   end.
+
+(* ---- a trait model writes one of ITS OWN stored messages to another of its resources ----
+   electricpb changeActiveMode: mode := modes.Get(id) - no read mask: the stored message itself -, then
+   activeMode.Set(mode).  As a model-level operation on the stored messages: the k-th stored message is the
+   src of FieldUpdater.Merge into the new value of the other resource (whose old value is abstracted to an empty
+   message; w = the writable fields the other resource was constructed with).
+   [_v0]: the code before 6705ac9 - the writable filter runs IN PLACE on the stored message.
+   current: the write is given proto.Clone(mode). *)
+Definition r_write_stored_v0 (n : nat) (k : nat) (w um rs : option nmask) : rfun := fun s ts =>
+  match nth_error ts k with
+  | Some t => let '(s1, dst) := halloc s Lib empty_node in (upd_merge_w n w um rs s1 dst t, [dst])
+  | None => (s, [])
+  end.
+Definition r_write_stored (n : nat) (k : nat) (w um rs : option nmask) : rfun := fun s ts =>
+  match nth_error ts k with
+  | Some t =>
+      let '(s1, c) := clone n Lib s t in
+      let '(s2, dst) := halloc s1 Lib empty_node in
+      (upd_merge_w n w um rs s2 dst c, [dst])
+  | None => (s, [])
+  end.
